@@ -458,7 +458,7 @@ def treeS : GTs :=
 theorem scanSv {R : Type} : parseTop ({ readNum := rdX } : ScanCfg R) ([49, 43, 49] ++ [125]) 0 3 =
     .ok [(.num (.nat 1), .add), (.num (.nat 1), .noOp)] := by
   with_unfolding_all rfl
-example {R : Type} : treeS.ok ∧ treeS.pathV (rdX (R := R)) [] ∧ treeS.caseV (rdX (R := R)) := by
+theorem treeS_wf {R : Type} : treeS.ok ∧ treeS.pathV (rdX (R := R)) [] ∧ treeS.caseV (rdX (R := R)) := by
   refine ⟨?_, ?_, ?_⟩
   · simp only [treeS, GTs.ok, GT.ok, and_true]
     refine ⟨⟨(by intro x hx; cases hx), (by intro x hx; cases hx), (by intro x hx; cases hx), (by decide),
@@ -483,6 +483,61 @@ example {R : Type} : treeS.ok ∧ treeS.pathV (rdX (R := R)) [] ∧ treeS.caseV 
       rw [show ([49, 43, 49] : List Nat).length = 3 from rfl, scanSv] at h; cases h
       intro v hv; simp [itemsVars, operandVars] at hv
   · simp [treeS, GTs.caseV, GT.caseV]
+
+/-- a concrete instance of `render_parse_print_loops` (all hypotheses discharged, the reference
+expansion evaluated by the kernel): the template
+`<loop value="v">{svar:t, {var:v}, {math:1+1}}</loop>` on the value `{"t": "x{0}y{1}"}` -/
+def phraseS : List Nat := [120, 123, 48, 125, 121, 123, 49, 125]   -- x{0}y{1}
+def rootS : Doc := .obj [([116], .str phraseS)]
+def cxS : RCtx Rat :=
+  { content := printList (gtsTpl treeS), root := rootS, readNum := rdX, realOfBits := fun _ => 0,
+    fmtReal := fun _ => [], groupBy := fun _ _ => none, sortDoc := fun d _ => d, realBits := fun _ => 0 }
+
+theorem reachS : ∀ d, Reach rootS d → d = rootS ∨ d = .str phraseS := by
+  intro d h
+  induction h with
+  | root => exact Or.inl rfl
+  | key d d' k _ hk ih =>
+    rcases ih with h | h
+    · subst h
+      simp only [rootS, Doc.getKey] at hk
+      split at hk
+      · rename_i kk v hf
+        have := List.mem_of_find?_eq_some hf
+        simp at this
+        split at hk
+        · cases hk
+        · cases hk; right; exact this.2
+      · cases hk
+    · subst h; simp [Doc.getKey] at hk
+  | item xs x hr _ ih =>
+    rcases ih with h | h <;> simp [rootS] at h
+  | mem ms k x _ hm ih =>
+    rcases ih with h | h
+    · simp only [rootS, Doc.obj.injEq] at h
+      subst h
+      simp at hm
+      right; exact hm.2
+    · cases h
+
+theorem render_parse_print_instance :
+    (parse ({ readNum := rdX } : ScanCfg Rat) cxS.content).bind
+        (fun tags => renderTop cxS tags (rneedGTs cxS [] treeS + rcostGTs treeS + 0)) =
+      .ok ([120] ++ phraseS ++ [121, 50]) := by
+  have hex : expand (specOf cxS) (gtsTpl treeS) (eneedGTs cxS [] treeS + 0) = [120] ++ phraseS ++ [121, 50] := by
+    with_unfolding_all rfl
+  rw [← hex]
+  have hwf : treeS.ok ∧ treeS.pathV (rdX (R := Rat)) [] ∧ treeS.caseV (rdX (R := Rat)) := treeS_wf
+  exact render_parse_print_loops cxS (specOf cxS) { readNum := rdX } treeS rfl ⟨rfl, rfl, rfl, rfl, rfl, rfl⟩ rfl rfl
+    hwf.1 hwf.2.1 hwf.2.2
+    (by
+      intro s hs x hx
+      rcases reachS _ hs with h | h
+      · simp [rootS] at h
+      · cases h
+        have : ∀ y ∈ phraseS, y < 2 ^ 32 := by decide
+        exact this x hx)
+    (by decide) 0 0
 
 /-- the class of `render_parse_print_loops` as a predicate on templates -/
 def WellFormedT {R : Type} (rn : List Nat → Option (Num R)) (t : List Tpl) : Prop :=
